@@ -724,6 +724,20 @@ class Hist:
         check_reported(ctx, self.obj, self.kind, self.p, self.acc_max, self.kind + ":reported")
         if self.is_profile:
             ctx.close(got["polarization"], unit(self.p["polarization"]), self.kind + ":polarization", rtol=1e-12, scale=1.0)
+        # copies taken earlier (copy.copy / deepcopy / pickle) are objects of their own: whatever happened to the original since,
+        # each still is what an object freshly constructed with the parameters it was copied with is
+        for how, twin, tp, n_at in getattr(self, "twins", []):
+            saved, self.p = self.p, tp
+            try:
+                tgot = self._observe(twin, None)
+                with ctx.cut("construct-fresh"):
+                    tfresh = build_profile(self.kind, tp) if self.is_profile else build_spectrum(self.kind, tp)
+                twant = self._observe(tfresh, None)
+            finally:
+                self.p = saved
+            for k in sorted(twant):
+                close_each(ctx, tgot[k], twant[k], "%s:copy:%s" % (self.kind, k),
+                           "[%s taken after %d setter(s), original now %s; vs fresh object with %r]" % (how, n_at, hist, tp))
         if self.snap is not None:
             changed = any(got[k].shape != self.snap[k].shape or not np.array_equal(got[k], self.snap[k]) for k in got)
             if changed:
@@ -794,6 +808,25 @@ def _reassign(self, arg):
 
 
 Hist.OPS["reassign_profile"] = lambda: st.just(None)
+
+
+def _take_copy(self, how):
+    import copy as _copy, pickle as _pickle
+    self._ensure()
+    try:
+        twin = {"copy": _copy.copy, "deepcopy": _copy.deepcopy, "pickle": lambda o: _pickle.loads(_pickle.dumps(o))}[how](self.obj)
+    except TypeError:
+        self.ctx.label("copy:unsupported:%s:%s" % (how, self.kind))      # the class does not offer this kind of copy: nothing to check
+        return
+    if not hasattr(self, "twins"):
+        self.twins = []
+    self.twins.append((how, twin, dict(self.p), self.n_set))
+    del self.twins[:-2]
+    self.ctx.label("copy:" + how)
+
+
+Hist.do_take_copy = _take_copy
+Hist.OPS["take_copy"] = lambda: st.sampled_from(["copy", "copy", "deepcopy", "pickle"])
 Hist.do_reassign_profile = _reassign
 Hist.pre_reassign_profile = lambda self: self.is_profile
 
